@@ -12,6 +12,7 @@
    starting file and after every operation of every generated sequence (function EditInv). *)
 From Coq Require Import Permutation.
 From Verif.Base Require Import Bytes.
+From Verif.Modfile Require Import Syntax Print Directives RoundDir2 Reparse2 Reparse3 Reparse5 Reparse7 Reparse9 Reparse10.
 From Verif.Modfile Require Import EditModel EditOps EditSpec EditProofsTyped EditProofsCoherent EditProofsCleanup EditProofsAddLine EditProofsAdd EditProofsUpsert EditProofsSeq EditProofsBlocks EditProofsSetRequire EditProofsExact EditProofs2Blocks EditProofs2Settable EditProofs2Sri EditProofs2Inv EditProofs2Check.
 
 (* After File.Cleanup no typed list holds a cleared placeholder entry. *)
@@ -251,5 +252,58 @@ Proof. destruct edit_inv_example as [A Bq C]. auto. Qed.
 Example C15_k9_file_excluded : heap_settableb (fsyn corner_file) = false /\ coherentb corner_file = true.
 Proof. exact corner_file_not_settable. Qed.
 
-(* NOT PROVED:
-   typed_equals_reparse needs the parser/printer round trip (C02/C20, other files). *)
+(* ---------------------------------------------------------------- typed_equals_reparse
+
+   Composition with the parser/printer round trip of C02 (Modfile/Reparse1-10.v).  One state f
+   of the edit model; [to_syntax name (fsyn f)] is its tree as a FileSyntax, [format] the model
+   of modfile.Format, [parse_to_file true None] the model of modfile.Parse (strict, no
+   version fixer), [abs f] the typed lists of f without cleared entries.  Hypotheses:
+
+   - Coherent f (the C15 invariant above);
+   - Printable known_mod_block (fsyn f)  (Reparse9.v, Reparse2.v, Reparse7.v), about the tree only:
+       ComsOk: every comment text starts with "//" and has no line feed (before a line of a block
+         or before ")" also the blank-line marker, never two in a row, not first in the block), at
+         most one end-of-line comment per node, the comment slots no parser output uses are empty
+         (After, LParen.Before, FileSyntax.Comments), a comment block is not empty;
+       stmt_ready: every line of the tree is live (what Cleanup establishes), its end-of-line
+         comments are ASCII (the edit model transcribes strings.Fields for ASCII white space
+         only), every block header is one of the block verbs of go.mod;
+   - tis_ok (typed_items f): every live typed entry is a VALID item ([item_ok], Reparse5.v):
+       paths are byte strings, not empty, not a lone punctuation character; require/exclude
+       versions are canonical semver matching the path's major-version suffix; replace as
+       parseReplace demands; retract bounds valid semver; go / toolchain / godebug values match
+       their syntax and are written as one plain token ([plain]: MustQuote is false).  These are
+       the values the strict parser itself delivers; the operations do not validate most of them
+       (AddRequire writes any version string, AddToolchainStmt accepts "go1. x y").
+
+   Conclusion: the formatted tree is accepted, and module path, go, toolchain are equal and
+   godebug, require (with the indirect flag), exclude, replace, retract intervals, tool are equal
+   AS MULTISETS to the typed lists. *)
+Theorem C15_typed_equals_reparse_state : forall name f,
+  Coherent f -> Printable known_mod_block (fsyn f) -> tis_ok (typed_items f) ->
+  exists f', parse_to_file true None (format (to_syntax name (fsyn f))) = DOk f' /\
+    option_map (fun m => mv_path (md_mod m)) (fd_module f') = k_module (abs f) /\
+    option_map go_version (fd_go f') = k_go (abs f) /\
+    option_map tc_name (fd_toolchain f') = k_toolchain (abs f) /\
+    Permutation (map (fun g => (Directives.gd_key g, gd_value g)) (fd_godebug f')) (k_godebug (abs f)) /\
+    Permutation (map (fun r => (mv_path (rq_mod r), mv_version (rq_mod r), rq_indirect r)) (fd_require f')) (k_require (abs f)) /\
+    Permutation (map (fun r => (mv_path (ex_mod r), mv_version (ex_mod r))) (fd_exclude f')) (k_exclude (abs f)) /\
+    Permutation (map rep_vals (fd_replace f')) (k_replace (abs f)) /\
+    Permutation (map (fun r => (rt_low r, rt_high r)) (fd_retract f'))
+                (map (fun x => (fst (fst x), snd (fst x))) (k_retract (abs f))) /\
+    Permutation (map Directives.tl_path (fd_tool f')) (k_tool (abs f)).
+Proof. exact typed_equals_reparse_mod. Qed.
+Print Assumptions C15_typed_equals_reparse_state.
+
+(* The same for go.work ([parse_work None] = modfile.ParseWork without fixer).  Use.ModulePath is
+   never written to the file (TODO(#45713) in work.go): the use list is compared by path. *)
+Theorem C15_typed_equals_reparse_work_state : forall name f,
+  Coherent f -> PrintableW (fsyn f) -> tis_okW (typed_items f) ->
+  exists f', parse_work None (format (to_syntax name (fsyn f))) = DOk f' /\
+    option_map go_version (wf_go f') = k_go (abs f) /\
+    option_map tc_name (wf_toolchain f') = k_toolchain (abs f) /\
+    Permutation (map (fun g => (Directives.gd_key g, gd_value g)) (wf_godebug f')) (k_godebug (abs f)) /\
+    Permutation (map Directives.us_path (wf_use f')) (map fst (k_use (abs f))) /\
+    Permutation (map rep_vals (wf_replace f')) (k_replace (abs f)).
+Proof. exact typed_equals_reparse_work. Qed.
+Print Assumptions C15_typed_equals_reparse_work_state.
